@@ -48,13 +48,17 @@ def _judge(cx, mido, mid, back):
 
 
 @harness(labels=['header', 'tracks', 'one-end_of_track'])
-def file_rt(cx, kinds, wide=(0,), ftype=1, hi=smf.D28):
+def file_rt(cx, kinds, wide=(0,), ftype=1, hi=smf.D28, charset=None):
     """save -> load for a file whose tracks hold messages of the given kinds
     (attributes symbolic in range, so running status is triggered and broken
     by the solver's choice of channels), delta times symbolic."""
     import mido
     mid = _build_file(cx, mido, kinds, set(wide), ftype, hi=hi)
-    data, back = _save_load(cx, mido, mid)
+    kw = {}
+    if charset:
+        mid.charset = charset
+        kw['charset'] = charset
+    data, back = _save_load(cx, mido, mid, **kw)
     _judge(cx, mido, mid, back)
 
 
@@ -64,9 +68,15 @@ def header_rt(cx):
     import mido
     ftype = cx.choice('type', 3)
     ntr = 1 if ftype == 0 else cx.choice('ntracks', 3)
-    tpb = cx.int('tpb', 1, TPB_MAX)
+    tpb = cx.int('tpb', 1, 70000)
     mid = mido.MidiFile(type=ftype, ticks_per_beat=tpb, tracks=[mido.MidiTrack() for _ in range(ntr)])
-    data, back = _save_load(cx, mido, mid)
+    # beyond 32767 the value does not fit the header field: save may refuse (any exception), but it must not
+    # write a file that loads with a different value
+    r, exc = cx.raises(lambda: _save_load(cx, mido, mid), Exception, label='header')
+    if exc is not None:
+        cx.check(tpb > TPB_MAX, 'header')
+        return
+    data, back = r
     cx.observe('header', data[:14])
     cx.check(back.type == ftype and cx.eq(back.ticks_per_beat, tpb) and len(back.tracks) == ntr and
              all(len(t) == 1 and t[0].type == 'end_of_track' and t[0].time == 0 for t in back.tracks), 'header')
@@ -208,7 +218,7 @@ BOUNDS = {
              'system common, sysex L=0/1/2, 11 known meta kinds, unknown meta with 0/2 data bytes), all attributes symbolic '
              'in range (running status triggered and broken by the solver), first delta in [0, 2^28), second in 0..127, '
              'ticks_per_beat in 1..32767; both deltas wide for representative pairs; 2-track and type 0/2 variants; one '
-             'delta up to 2^35; header symbolic; payload lengths 0,1,127,128,129,16383,16384; refusal cases; fixed point '
+             'delta up to 2^35; header symbolic (ticks_per_beat over 1..70000); text kinds under utf-8/utf-16; payload lengths 0,1,127,128,129,16383,16384; refusal cases; fixed point '
              'for every track body of <=5 arbitrary bytes',
     'thorough': 'additionally all triples over 11 representative kinds with ALL deltas full-range, 4-message shapes, '
                 'track bodies of <=6 arbitrary bytes (meta events of types 0x00..0x50 up to 5 bytes)',
@@ -240,6 +250,9 @@ def JOBS(tier):
     for a in ('note_on', 'program_change', 'pitchwheel'):
         for x in SANDWICH:
             jobs.append((file_rt, {'kinds': [[a, x, a]], 'wide': (1,)}, {'cost': 30}))
+    for cs in ('utf-8', 'utf-16'):
+        for ks in (['text', 'note_on'], ['note_on', 'track_name', 'text']):
+            jobs.append((file_rt, {'kinds': [ks], 'charset': cs}, {'cost': 10}))
     jobs.append((file_rt, {'kinds': [[]]}, {}))
     jobs.append((file_rt, {'kinds': [['end_of_track', 'end_of_track']], 'wide': (0, 1)}, {}))
     jobs.append((file_rt, {'kinds': [['note_on', 'note_on', 'note_on', 'note_on']], 'wide': (0, 3)}, {'cost': 50}))
